@@ -38,7 +38,8 @@ JUNK_DEFS = {"json_null", "json_list", "json_obj_empty", "json_junk"}
 LOGS = {"omit": None, "off": {"level": "OFF"}, "empty": {}, "all": {"level": "ALL", "destinations": [{"cloudWatchLogsLogGroup": {"logGroupArn": "arn:x"}}]},
         "error_incl": {"level": "ERROR", "includeExecutionData": True, "destinations": [{"d": 1}]},
         "all_nodest": {"level": "ALL"}, "bogus": {"level": "BOGUS"}, "nodest_list": {"level": "FATAL", "destinations": []}, "two_dest": {"level": "ALL", "destinations": [{}, {}]},
-        "string": "ALL", "list": ["ALL"]}
+        "string": "ALL", "list": ["ALL"], "level_list": {"level": []}, "level_obj": {"level": {"a": 1}}, "level_num": {"level": 5}, "level_null": {"level": None},
+        "dest_str": {"level": "ALL", "destinations": "x"}, "dest_num": {"level": "ERROR", "destinations": 7}, "dest_obj": {"level": "FATAL", "destinations": {"a": 1}}}
 VALID_LOGS = {"omit", "off", "empty", "all", "error_incl"}
 TYPES = {"omit": None, "STANDARD": "STANDARD", "EXPRESS": "EXPRESS", "bogus": "FAST", "lower": "standard", "list": ["STANDARD"], "number": 1}
 INPUTS = {"omit": None, "obj": '{"a": 1}', "list": "[1, 2]", "str": '"s"', "null": "null", "not_json": "{oops", "empty": "", "number": 5, "object_value": {"a": 1}}
@@ -448,6 +449,9 @@ def strategies():
                                        "log": st.sampled_from(["omit", "omit", "off", "all"])})
     update = st.fixed_dictionaries({"op": st.just("update"), "sm": sm, "role": st.sampled_from(["omit", "omit", "r2", "r1", "bad_account", "empty", "number"]),
                                     "def": st.one_of(st.just("omit"), any_def), "log": log})
+    # accepted updates of every shape (roleArn only, definition only, both) on machines that usually exist
+    update_ok = st.fixed_dictionaries({"op": st.just("update"), "sm": st.sampled_from(["m1", "m1", "m2", "m3"]), "role": st.sampled_from(["omit", "r2", "r1"]), "def": st.one_of(st.just("omit"), good_def),
+                                       "log": st.just("omit")})
     start = st.fixed_dictionaries({"op": st.just("start"), "sm": sm, "name": st.sampled_from(["fresh"] * 5 + ["auto", "space", "long", "number", "empty"]),
                                    "input": st.sampled_from(["omit", "obj", "obj", "list", "str", "null", "not_json", "empty", "number", "object_value"])})
     ex = st.one_of(st.integers(0, 5), st.integers(0, 5), st.sampled_from(["!unknown", "!bad", "!omit", "!number"]))
@@ -462,9 +466,9 @@ def strategies():
                                                                                   "ListExecutions", "DescribeExecution", "DescribeStateMachineForExecution", "ListStateMachines"]),
                                "body": st.sampled_from(RAW_BODIES)}),
     )
-    one = st.one_of(create_ok, create_ok, create, update, update, start, start, other, other, other)
+    one = st.one_of(create_ok, create_ok, create, update, update_ok, start, start, other, other, other)
     ops = st.integers(4, 30).flatmap(lambda n: st.lists(one, min_size=n, max_size=n))
-    return st.fixed_dictionaries({"front": st.sampled_from(["asyncio", "asyncio", "blocking"]), "validate_asl": st.booleans(), "ops": ops})
+    return st.fixed_dictionaries({"front": st.sampled_from(["asyncio", "blocking"]), "validate_asl": st.booleans(), "ops": ops})
 
 
 def nontrivial(sc):
@@ -531,5 +535,5 @@ def main(tier, seed, replay=None):
     if tier == "thorough":
         run_shards(camp, __name__, "shard", 16, examples=1200)
     else:
-        run_shards(camp, __name__, "shard", 8, examples=50)
+        run_shards(camp, __name__, "shard", 8, examples=100)
     return camp.finish()
